@@ -46,6 +46,7 @@ type Runner struct {
 	// ghost: the items as they stood after the previous block end of this application (C07's
 	// history monitor judges every move against it).
 	ghost []Item
+	msgs  int // messages executed in the block being assembled
 }
 
 func (rn *Runner) dump() State {
@@ -61,6 +62,9 @@ func (rn *Runner) invalidate() { rn.last = nil }
 
 // Advance fixes the time of the block being assembled to dt after the last block.
 func (rn *Runner) Advance(dt time.Duration) {
+	if rn.msgs > 0 {
+		panic("dacommon: block time changed after messages of the block were executed")
+	}
 	if dt <= 0 {
 		dt = time.Nanosecond
 	}
@@ -103,7 +107,9 @@ func (rn *Runner) Do(op *Op) (State, State) {
 	rn.St.Evaluations++
 	rn.St.Count(fmt.Sprintf("%s:%s", op.Kind, resName(op.Res)))
 	rn.classify(pre, op, post, info)
+	rn.msgs++
 	if op.Kind == OpEndBlock {
+		rn.msgs = 0
 		if op.Res != 0 {
 			rn.BlockFailed = true
 		}
@@ -305,6 +311,7 @@ func (rn *Runner) NewWorldN(nAcct int, jail bool) {
 	rn.W = NewWorld(nAcct, 4, 1_000_000_000_000)
 	rn.invalidate()
 	rn.ghost = nil
+	rn.msgs = 0
 	w := rn.W
 	// one poor account: everything but 50 of each denom goes to another account
 	rn.Poor = w.AcctIDs[len(w.AcctIDs)-1]
@@ -600,6 +607,7 @@ func (rn *Runner) SameBlock() {
 	rn.Publish(a(0), 4, 0)
 	uI, _ := rn.Publish(a(3), 4, 0)
 	rn.Inval(a(2), uI, 0, 1)
+	rn.EndBlock()
 	rn.Advance(30 * time.Second)
 	rn.EndBlock()
 	rn.Advance(30 * time.Second)
